@@ -292,6 +292,8 @@ class G:
         op = prog[0]
         if op == "switch":
             vals[0] = pick(len(prog) - 1)
+            if n is None and r.random() < self.focus.get("oob", 0.0):
+                vals[0] = r.choice([-2, -1, len(prog) - 1, len(prog)])     # documented: clamped
         elif op == "orelse":
             vals[0] = pick(2)
         elif op == "mask":
